@@ -92,6 +92,11 @@ func (data *Data) Deserialize(fr *FrameHeader) error {
 		if err != nil {
 			return err
 		}
+
+		// What is kept has no padding, so the header must not say it has:
+		// written out again the frame would claim a Pad Length octet that is
+		// not there.
+		fr.SetFlags(fr.Flags().Del(FlagPadded))
 	}
 
 	data.endStream = fr.Flags().Has(FlagEndStream)
